@@ -183,6 +183,42 @@ type plainItem struct {
 	tags []string
 }
 
+type nilSafeS struct{ v string }
+
+func (p *nilSafeS) String() string {
+	if p == nil {
+		return "nil-safe String"
+	}
+	return p.v
+}
+
+type nilSafeEmpty struct{ v string }
+
+func (p *nilSafeEmpty) String() string {
+	if p == nil {
+		return ""
+	}
+	return p.v
+}
+
+type nilSafeG struct{ v string }
+
+func (p *nilSafeG) GoString() string {
+	if p == nil {
+		return "nil-safe GoString"
+	}
+	return p.v
+}
+
+type nilSafeE struct{ v string }
+
+func (p *nilSafeE) Error() string {
+	if p == nil {
+		return "nil-safe Error"
+	}
+	return p.v
+}
+
 type noMethods struct {
 	A int
 	B string
@@ -337,6 +373,15 @@ func runC01(x *X) {
 		{"error with empty text", func() interface{} { return myErr{""} }, sp(""), nil},
 		{"[]byte", func() interface{} { return []byte("hi") }, pv, nil},
 		{"struct{}", func() interface{} { return struct{}{} }, pv, nil},
+		// typed nil pointers: still items of their type; the ladder applies to the methods the type has (here: nil-safe ones)
+		{"(*T)(nil), T has a nil-safe String", func() interface{} { return (*nilSafeS)(nil) }, sp("nil-safe String"), []string{"typed_nil_pointer"}},
+		{"(*T)(nil), nil-safe String returning \"\"", func() interface{} { return (*nilSafeEmpty)(nil) }, sp(""), []string{"typed_nil_pointer"}},
+		{"(*T)(nil), T has a nil-safe GoString only", func() interface{} { return (*nilSafeG)(nil) }, sp("nil-safe GoString"), []string{"typed_nil_pointer"}},
+		{"(*T)(nil), T has a nil-safe Error only", func() interface{} { return (*nilSafeE)(nil) }, sp("nil-safe Error"), []string{"typed_nil_pointer"}},
+		{"(*T)(nil), T has no methods", func() interface{} { return (*noMethods)(nil) }, pv, []string{"typed_nil_pointer"}},
+		{"nil map", func() interface{} { return map[string]int(nil) }, pv, nil},
+		{"nil slice", func() interface{} { return []int(nil) }, pv, nil},
+		{"nil func", func() interface{} { return (func())(nil) }, pv, nil},
 	}
 	var plain []plainItem
 	plain = append(plain, base...)
